@@ -20,6 +20,8 @@ use std::time::Instant;
 #[derive(Clone, Copy, Debug, PartialEq, Eq)]
 enum Enc {
     Block,
+    /// block with a three-digit, zero-padded length field (`#3005hello`)
+    BlockPad,
     Single,
     Double,
 }
@@ -28,6 +30,7 @@ impl Enc {
     fn name(&self) -> &'static str {
         match self {
             Enc::Block => "block",
+            Enc::BlockPad => "block-zero-padded-length",
             Enc::Single => "single-quoted",
             Enc::Double => "double-quoted",
         }
@@ -39,6 +42,10 @@ impl Enc {
                 out.push(b'#');
                 out.push(b'0' + len.len() as u8);
                 out.extend_from_slice(len.as_bytes());
+                out.extend_from_slice(p);
+            }
+            Enc::BlockPad => {
+                out.extend_from_slice(format!("#3{:03}", p.len()).as_bytes());
                 out.extend_from_slice(p);
             }
             Enc::Single => {
@@ -426,13 +433,13 @@ fn main() {
     let mut cases: Vec<Case> = vec![];
     for (si, s) in SLOTS.iter().enumerate() {
         for unit_pos in 0..3 {
-            let encs: &[Enc] = if s.block { &[Enc::Block] } else { &[Enc::Single, Enc::Double] };
+            let encs: &[Enc] = if s.block { &[Enc::Block, Enc::BlockPad] } else { &[Enc::Single, Enc::Double] };
             for &enc in encs {
                 for p in structural.iter() {
                     let quote = match enc {
                         Enc::Single => Some(b'\''),
                         Enc::Double => Some(b'"'),
-                        Enc::Block => None,
+                        Enc::Block | Enc::BlockPad => None,
                     };
                     if quote.map(|q| p.contains(&q)).unwrap_or(false) {
                         continue;
@@ -462,7 +469,7 @@ fn main() {
     let mut fcases: Vec<(&'static [u8], Option<&'static [u8]>, usize, Enc, Vec<u8>)> = vec![];
     for prefix in [&b"Z"[..], b"@", b"B 300", b"A:X", b"A:B 1", b"B 1 2"] {
         for (si, s) in SLOTS.iter().enumerate().take(4) {
-            let encs: &[Enc] = if s.block { &[Enc::Block] } else { &[Enc::Single, Enc::Double] };
+            let encs: &[Enc] = if s.block { &[Enc::Block, Enc::BlockPad] } else { &[Enc::Single, Enc::Double] };
             for &enc in encs {
                 for p in [&b"\n"[..], b"a\nb", b"\n:E\n", b"x\n*R\n", b";\n,", b"\n\n"] {
                     fcases.push((prefix, None, si, enc, p.to_vec()));
@@ -474,7 +481,7 @@ fn main() {
     // wrong count), behind a sound unit
     for hdr in [&b":Z"[..], b":A:Y", b":B", b":A:Q?", b"Z:Z"] {
         for (si, s) in SLOTS.iter().enumerate().take(4) {
-            let encs: &[Enc] = if s.block { &[Enc::Block] } else { &[Enc::Single, Enc::Double] };
+            let encs: &[Enc] = if s.block { &[Enc::Block, Enc::BlockPad] } else { &[Enc::Single, Enc::Double] };
             for &enc in encs {
                 for p in [&b"\n"[..], b"a\nb", b"\n:E\n", b"x\n*R\n", b";\n,", b"\n\n"] {
                     fcases.push((b":E", Some(hdr), si, enc, p.to_vec()));
